@@ -1400,10 +1400,23 @@ func (n RangeNumber) getFloat64() (float64, error) {
 	return 0, errRangeBoundNotNumber
 }
 
-// asFloat orders bounds among themselves, exact enough to tell which of two written bounds is the lower one
-func (n RangeNumber) asFloat() float64 {
-	f, _ := n.getFloat64()
-	return f
+// lessThan orders bounds among themselves, exactly for integers of any size
+func (n RangeNumber) lessThan(o RangeNumber) bool {
+	if n.float == nil && o.float == nil {
+		switch {
+		case n.integer != nil && o.integer != nil:
+			return *n.integer < *o.integer
+		case n.integer != nil && o.unsigned != nil:
+			return *n.integer < 0 || uint64(*n.integer) < *o.unsigned
+		case n.unsigned != nil && o.integer != nil:
+			return *o.integer >= 0 && *n.unsigned < uint64(*o.integer)
+		case n.unsigned != nil && o.unsigned != nil:
+			return *n.unsigned < *o.unsigned
+		}
+	}
+	a, _ := n.getFloat64()
+	b, _ := o.getFloat64()
+	return a < b
 }
 
 // resolveRangeKeywords gives the 'min' and 'max' keywords of a chain of range (or length)
@@ -1426,10 +1439,10 @@ func resolveRangeKeywords(levels []*Range, lo RangeNumber, hi RangeNumber) {
 			if !e.Exact.Empty() {
 				l, h = e.Exact, e.Exact
 			}
-			if first || l.asFloat() < nextLo.asFloat() {
+			if first || l.lessThan(nextLo) {
 				nextLo = l
 			}
-			if first || h.asFloat() > nextHi.asFloat() {
+			if first || nextHi.lessThan(h) {
 				nextHi = h
 			}
 			first = false
